@@ -39,8 +39,8 @@ proof fn lemma_mc_collected(items: Seq<(usize, BTreeSet<usize>)>, m: BTreeMap<us
 
 /// a map that keeps the rows has a vertex only if there is a row
 proof fn lemma_mc_nonempty(g: AdjacencyMap, rows: Seq<BTreeSet<usize>>)
-    requires mc_rows_kept(g, rows), g.ord() > 0,
-    ensures rows.len() > 0,
+    requires mc_rows_kept(g, rows),
+    ensures g.ord() > 0 ==> rows.len() > 0,
 {
     if rows.len() == 0 {
         assert forall|k: usize| !g.arcs@.dom().contains(k) by { assert(g.arcs@.contains_key(k) == (k < rows.len())); }
@@ -127,6 +127,7 @@ impl AdjacencyMap {
         proof {
             // the loop's ghost iterator is out of scope here: state the conclusion for every item sequence with its invariant
             assert forall|s: Seq<(usize, usize)>| #[trigger] mc_arcs_listed(digraph.arcs@, s)
+                && mc_rows_kept(digraph, iter@) && 0 < iter@.len() <= usize::MAX
                 && (forall|i: int| 0 <= i < s.len() ==> (#[trigger] s[i]).0 != s[i].1 && digraph.arcs@.contains_key(s[i].1))
                 implies digraph.wf() && mc_rows_valid(iter@) && digraph.ord() == iter@.len()
                     && (forall|x: int| #[trigger] digraph.verts().contains(x) == (0 <= x < iter@.len()))
@@ -152,5 +153,422 @@ impl AdjacencyMap {
         r.ord() == 1,
         forall|x: int| #[trigger] r.verts().contains(x) == (x == 0),
         forall|a: int, b: int| #![trigger r.has(a, b)] !r.has(a, b),
+    @*/
+}
+
+// ---- C11 filter_vertices: the subdigraph induced by the vertices satisfying the predicate ----
+// `filter_vertices` calls `vertices` and `out_neighbors`.  Their contracts are owned by unit map_more
+// (units/inc/map_more.inc.rs); that fragment cannot be imported here because it contains a `trivial` stand-in with
+// `requires false`, which would clash with the real `trivial` above.  Both functions are therefore extracted and verified
+// again in this unit, with the SAME contracts (helper predicates renamed mm_ -> mc_).
+
+/// strictly ascending item sequence of a key / element iterator
+spec fn mc_ascending(rem: Seq<&usize>) -> bool {
+    forall|i: int, j: int| 0 <= i < j < rem.len() ==> *(#[trigger] rem[i]) < *(#[trigger] rem[j])
+}
+
+/// meaning of vstd's `increasing_seq` on `&usize` items: strictly ascending
+proof fn lemma_mc_ref_increasing(rem: Seq<&usize>)
+    requires vstd::std_specs::btree::increasing_seq(rem),
+    ensures mc_ascending(rem),
+{
+    broadcast use vstd::laws_cmp::group_laws_cmp;
+    assert(vstd::laws_cmp::obeys_cmp::<&usize>());
+    vstd::std_specs::btree::axiom_increasing_seq_meaning(rem);
+    assert forall|i: int, j: int| 0 <= i < j < rem.len() implies *(#[trigger] rem[i]) < *(#[trigger] rem[j]) by {
+        assert(<&usize as vstd::std_specs::cmp::OrdSpec>::cmp_spec(&rem[i], &rem[j]) is Less);
+    }
+}
+
+/// ks lists the vertex set `dom` in ascending order (hence each vertex once)
+spec fn mc_is_key_seq(dom: Set<usize>, ks: Seq<usize>) -> bool {
+    &&& ks.to_set() == dom
+    &&& ks.no_duplicates()
+    &&& forall|i: int, j: int| 0 <= i < j < ks.len() ==> #[trigger] ks[i] < #[trigger] ks[j]
+}
+
+impl AdjacencyMap {
+    // C01 vertices: every vertex exactly once, ascending (same contract as in unit map_more)
+    /*@fn impl=AdjacencyMap trait=Vertices name=vertices wrap=copied props=C01,C13 subst="Iterator<Item=usize>=>Iterator<Item=usize>+use<'_>"
+    ensures
+        r.obeys_prophetic_iter_laws(),
+        r.decrease() is Some,
+        mc_is_key_seq(self.arcs@.dom(), r.remaining()),
+        r.remaining().len() == self.ord(),
+    @fn_start
+        proof {
+            assert forall|rem: Seq<&usize>| #[trigger] vstd::std_specs::btree::increasing_seq(rem) implies mc_ascending(rem) by { lemma_mc_ref_increasing(rem); }
+        }
+    @*/
+
+    // C02 out_neighbors: exactly the out-neighbours of u, ascending, no repeats; u outside V panics (same contract as in map_more)
+    /*@fn impl=AdjacencyMap trait=OutNeighbors name=out_neighbors wrap=copied props=C02,C13 subst="Iterator<Item=usize>=>Iterator<Item=usize>+use<'_>"
+    ensures
+        self.verts().contains(u as int),
+        r.obeys_prophetic_iter_laws(),
+        r.decrease() is Some,
+        forall|i: int| 0 <= i < r.remaining().len() ==> self.has(u as int, #[trigger] r.remaining()[i] as int),
+        forall|v: int| #[trigger] self.has(u as int, v) ==> r.remaining().contains(v as usize),
+        forall|i: int, j: int| 0 <= i < j < r.remaining().len() ==> r.remaining()[i] < r.remaining()[j],
+        r.remaining().no_duplicates(),
+    @fn_start
+        broadcast use lemma_map_verts_contains;
+        proof {
+            assert forall|rem: Seq<&usize>| #[trigger] vstd::std_specs::btree::increasing_seq(rem) implies mc_ascending(rem) by { lemma_mc_ref_increasing(rem); }
+            if self.arcs@.contains_key(u) {
+                let row = self.arcs@[u]@;
+                assert forall|s: Seq<usize>, v: int| #[trigger] s.to_set() == row && #[trigger] self.has(u as int, v) implies s.contains(v as usize) by {
+                    assert(s.to_set().contains(v as usize));
+                }
+                assert forall|s: Seq<usize>, i: int| #[trigger] s.to_set() == row && 0 <= i < s.len() implies self.has(u as int, #[trigger] s[i] as int) by {
+                    assert(s.to_set().contains(s[i]));
+                }
+            }
+        }
+    @*/
+}
+
+// what a `P: Fn(usize) -> bool` predicate says (closures are known through their requires/ensures only, and
+// `f.ensures(args, r)` is only a NECESSARY condition for "f(args) returned r"); same rendering as prelude/dg_johnson.rs
+spec fn mc_fv_callable<P: Fn(usize) -> bool>(f: P) -> bool { forall|v: usize| #[trigger] f.requires((v,)) }
+/// "calling f on v can return r"
+spec fn mc_fv_says<P: Fn(usize) -> bool>(f: P, v: usize, r: bool) -> bool { f.ensures((v,), r) }
+/// the predicate is a function of its argument
+spec fn mc_fv_det<P: Fn(usize) -> bool>(f: P) -> bool {
+    forall|v: usize, r1: bool, r2: bool| #[trigger] mc_fv_says(f, v, r1) && #[trigger] mc_fv_says(f, v, r2) ==> r1 == r2
+}
+/// the predicate can accept / can reject vertex x
+spec fn mc_fv_yes<P: Fn(usize) -> bool>(f: P, x: int) -> bool { 0 <= x <= usize::MAX && mc_fv_says(f, x as usize, true) }
+spec fn mc_fv_no<P: Fn(usize) -> bool>(f: P, x: int) -> bool { 0 <= x <= usize::MAX && mc_fv_says(f, x as usize, false) }
+
+type McMap = Map<usize, BTreeSet<usize>>;
+
+/// the map under construction is inside the induced subdigraph: its keys are accepted vertices of g, its arcs are arcs
+/// of g whose head is already a key
+spec fn mc_fv_sub<P: Fn(usize) -> bool>(g: AdjacencyMap, p: P, m: McMap) -> bool {
+    &&& forall|a: usize| #[trigger] m.contains_key(a) ==> g.arcs@.contains_key(a) && mc_fv_says(p, a, true)
+    &&& forall|a: usize, b: usize| m.contains_key(a) && #[trigger] m[a]@.contains(b) ==> g.arcs@[a]@.contains(b) && m.contains_key(b)
+}
+
+/// vertex a of g has been treated: it is a key unless it was rejected, and each of its arcs is there unless an endpoint was rejected
+spec fn mc_fv_done<P: Fn(usize) -> bool>(g: AdjacencyMap, p: P, m: McMap, a: usize) -> bool {
+    &&& m.contains_key(a) || mc_fv_says(p, a, false)
+    &&& forall|b: usize| #[trigger] g.arcs@[a]@.contains(b) ==> (m.contains_key(a) && m[a]@.contains(b)) || mc_fv_says(p, a, false) || mc_fv_says(p, b, false)
+}
+
+/// the first n vertices of ks have been treated
+spec fn mc_fv_done_upto<P: Fn(usize) -> bool>(g: AdjacencyMap, p: P, m: McMap, ks: Seq<usize>, n: int) -> bool {
+    forall|k: int| 0 <= k < n ==> mc_fv_done(g, p, m, #[trigger] ks[k])
+}
+
+/// the map only grows: keys stay, rows only gain elements
+spec fn mc_grows(m0: McMap, m1: McMap) -> bool {
+    forall|a: usize| #[trigger] m0.contains_key(a) ==> m1.contains_key(a) && m0[a]@.subset_of(m1[a]@)
+}
+
+/// `arcs.entry(k).or_default()` with the reference dropped unused: key k is present afterwards, with its old row or an empty one
+spec fn mc_touched(m0: McMap, m1: McMap, k: usize) -> bool {
+    &&& m1 == m0.insert(k, m1[k])
+    &&& m0.contains_key(k) ==> m1[k] == m0[k]
+    &&& !m0.contains_key(k) ==> m1[k]@ == Set::<usize>::empty()
+}
+
+/// `arcs.entry(k).or_default().insert(x)`: key k is present afterwards, its row is the old row (or an empty one) plus x
+spec fn mc_added(m0: McMap, m1: McMap, k: usize, x: usize) -> bool {
+    &&& m1 == m0.insert(k, m1[k])
+    &&& m0.contains_key(k) ==> m1[k]@ == m0[k]@.insert(x)
+    &&& !m0.contains_key(k) ==> m1[k]@ == Set::<usize>::empty().insert(x)
+}
+
+/// the two statements of the inner loop body: the arc k -> x is added, then x is admitted
+spec fn mc_arc_added(m0: McMap, m2: McMap, k: usize, x: usize) -> bool {
+    exists|m1: McMap| mc_added(m0, m1, k, x) && #[trigger] mc_touched(m1, m2, x)
+}
+
+proof fn lemma_mc_grows_done<P: Fn(usize) -> bool>(g: AdjacencyMap, p: P, m0: McMap, m1: McMap, ks: Seq<usize>, n: int)
+    requires mc_grows(m0, m1), mc_fv_done_upto(g, p, m0, ks, n),
+    ensures mc_fv_done_upto(g, p, m1, ks, n),
+{
+    assert forall|k: int| 0 <= k < n implies mc_fv_done(g, p, m1, #[trigger] ks[k]) by {
+        let a = ks[k];
+        assert(mc_fv_done(g, p, m0, a));
+        assert forall|b: usize| #[trigger] g.arcs@[a]@.contains(b) implies (m1.contains_key(a) && m1[a]@.contains(b)) || mc_fv_says(p, a, false) || mc_fv_says(p, b, false) by {
+            if m0.contains_key(a) && m0[a]@.contains(b) { assert(m0[a]@.subset_of(m1[a]@)); }
+        }
+    }
+}
+
+/// an accepted vertex u of g is admitted
+proof fn lemma_mc_fv_touch<P: Fn(usize) -> bool>(g: AdjacencyMap, p: P, m0: McMap, m1: McMap, u: usize)
+    requires
+        mc_fv_sub(g, p, m0),
+        g.arcs@.contains_key(u),
+        mc_fv_says(p, u, true),
+        mc_touched(m0, m1, u),
+    ensures
+        mc_fv_sub(g, p, m1),
+        mc_grows(m0, m1),
+        m1.contains_key(u),
+{
+    assert forall|a: usize, b: usize| m1.contains_key(a) && #[trigger] m1[a]@.contains(b) implies g.arcs@[a]@.contains(b) && m1.contains_key(b) by {
+        if a == u && !m0.contains_key(u) { assert(false); }
+        assert(m0.contains_key(a) && m0[a]@.contains(b));
+    }
+}
+
+/// an arc u -> v of g between accepted vertices is added (u already admitted), then v is admitted
+proof fn lemma_mc_fv_add<P: Fn(usize) -> bool>(g: AdjacencyMap, p: P, m0: McMap, m1: McMap, m2: McMap, u: usize, v: usize)
+    requires
+        g.wf(),
+        mc_fv_sub(g, p, m0),
+        m0.contains_key(u),
+        g.arcs@.contains_key(u),
+        g.arcs@[u]@.contains(v),
+        mc_fv_says(p, v, true),
+        mc_added(m0, m1, u, v),
+        mc_touched(m1, m2, v),
+    ensures
+        mc_fv_sub(g, p, m2),
+        mc_grows(m0, m2),
+        m2.contains_key(u),
+        m2[u]@.contains(v),
+{
+    assert(g.arcs@.contains_key(v) && v != u);
+    assert(m1[u]@.contains(v));
+    assert(m2[u] == m1[u]);
+    assert forall|a: usize| #[trigger] m0.contains_key(a) implies m2.contains_key(a) && m0[a]@.subset_of(m2[a]@) by {
+        if a == u { assert(m0[u]@.subset_of(m1[u]@)); }
+        else if a == v { assert(m1.contains_key(v) && m1[v] == m0[v] && m2[v] == m1[v]); }
+        else { assert(m2[a] == m0[a]); }
+    }
+    assert forall|a: usize| #[trigger] m2.contains_key(a) implies g.arcs@.contains_key(a) && mc_fv_says(p, a, true) by {
+        if a != v { assert(m1.contains_key(a)); if a != u { assert(m0.contains_key(a)); } }
+    }
+    assert forall|a: usize, b: usize| m2.contains_key(a) && #[trigger] m2[a]@.contains(b) implies g.arcs@[a]@.contains(b) && m2.contains_key(b) by {
+        if a == u {
+            if b != v { assert(m0[u]@.contains(b)); assert(m0.contains_key(b)); }
+        } else if a == v {
+            if m1.contains_key(v) { assert(m2[v] == m1[v] && m1[v] == m0[v] && m0.contains_key(v)); assert(m0[v]@.contains(b)); assert(m0.contains_key(b)); }
+            else { assert(false); }
+        } else {
+            assert(m2[a] == m0[a] && m0.contains_key(a));
+            assert(m0[a]@.contains(b));
+            assert(m0.contains_key(b));
+        }
+    }
+}
+
+/// vs lists the out-neighbours of u in g
+spec fn mc_nb_seq(g: AdjacencyMap, u: usize, vs: Seq<usize>) -> bool {
+    &&& forall|j: int| 0 <= j < vs.len() ==> g.has(u as int, #[trigger] vs[j] as int)
+    &&& forall|v: int| #[trigger] g.has(u as int, v) ==> vs.contains(v as usize)
+}
+
+/// the first n out-neighbours listed in vs are heads in row u unless they were rejected
+spec fn mc_fv_row_upto<P: Fn(usize) -> bool>(p: P, m: McMap, u: usize, vs: Seq<usize>, n: int) -> bool {
+    forall|j: int| 0 <= j < n ==> m[u]@.contains(#[trigger] vs[j]) || mc_fv_says(p, vs[j], false)
+}
+
+/// vertex u was accepted and all its out-neighbours have been looked at: u is treated
+proof fn lemma_mc_fv_vertex_done<P: Fn(usize) -> bool>(g: AdjacencyMap, p: P, m: McMap, u: usize, vs: Seq<usize>)
+    requires
+        m.contains_key(u),
+        g.arcs@.contains_key(u),
+        mc_nb_seq(g, u, vs),
+        mc_fv_row_upto(p, m, u, vs, vs.len() as int),
+    ensures
+        mc_fv_done(g, p, m, u),
+{
+    assert forall|b: usize| #[trigger] g.arcs@[u]@.contains(b) implies (m.contains_key(u) && m[u]@.contains(b)) || mc_fv_says(p, u, false) || mc_fv_says(p, b, false) by {
+        assert(g.has(u as int, b as int));
+        assert(vs.contains(b));
+        let j = choose|j: int| 0 <= j < vs.len() && vs[j] == b;
+        assert(m[u]@.contains(vs[j]) || mc_fv_says(p, vs[j], false));
+    }
+}
+
+// ---- the loop invariants of filter_vertices as named states, and one UNCONDITIONAL step lemma per program point (each of the
+// form "state before && what the statements did ==> state after"), so that a wrong statement surfaces as a failed invariant /
+// postcondition of the function and never as a failed lemma precondition inside a hint ----
+
+/// outer loop, at the head with i vertices of ks visited
+spec fn mc_fv_outer<P: Fn(usize) -> bool>(g: AdjacencyMap, p: P, m: McMap, ks: Seq<usize>, i: int) -> bool {
+    &&& g.wf()
+    &&& mc_is_key_seq(g.arcs@.dom(), ks)
+    &&& 0 <= i <= ks.len()
+    &&& mc_fv_sub(g, p, m)
+    &&& mc_fv_done_upto(g, p, m, ks, i)
+}
+
+/// inner loop, at the head with j out-neighbours (listed in vs) of the accepted vertex u = ks[i] visited
+spec fn mc_fv_inner<P: Fn(usize) -> bool>(g: AdjacencyMap, p: P, m: McMap, ks: Seq<usize>, i: int, u: usize, vs: Seq<usize>, j: int) -> bool {
+    &&& mc_fv_outer(g, p, m, ks, i)
+    &&& i < ks.len() && ks[i] == u
+    &&& mc_nb_seq(g, u, vs)
+    &&& 0 <= j <= vs.len()
+    &&& m.contains_key(u)
+    &&& mc_fv_row_upto(p, m, u, vs, j)
+}
+
+/// entering the inner loop: u = ks[i] was accepted and admitted
+spec fn mc_fv_enter_ok<P: Fn(usize) -> bool>(g: AdjacencyMap, p: P, m0: McMap, m1: McMap, ks: Seq<usize>, i: int, u: usize, vs: Seq<usize>) -> bool {
+    mc_fv_outer(g, p, m0, ks, i) && i < ks.len() && ks[i] == u && mc_fv_says(p, u, true) && mc_touched(m0, m1, u) && mc_nb_seq(g, u, vs)
+        ==> mc_fv_inner(g, p, m1, ks, i, u, vs, 0)
+}
+proof fn lemma_mc_fv_enter<P: Fn(usize) -> bool>(g: AdjacencyMap, p: P, m0: McMap, m1: McMap, ks: Seq<usize>, i: int, u: usize, vs: Seq<usize>)
+    ensures mc_fv_enter_ok(g, p, m0, m1, ks, i, u, vs),
+{
+    if mc_fv_outer(g, p, m0, ks, i) && i < ks.len() && ks[i] == u && mc_fv_says(p, u, true) && mc_touched(m0, m1, u) && mc_nb_seq(g, u, vs) {
+        assert(ks.to_set().contains(ks[i]));
+        lemma_mc_fv_touch(g, p, m0, m1, u);
+        lemma_mc_grows_done(g, p, m0, m1, ks, i);
+    }
+}
+
+/// one round of the inner loop: v = vs[j] was rejected and nothing changed, or it was accepted and u -> v added, v admitted
+proof fn lemma_mc_fv_inner_step<P: Fn(usize) -> bool>(g: AdjacencyMap, p: P, m0: McMap, m2: McMap, ks: Seq<usize>, i: int, u: usize, vs: Seq<usize>, j: int, v: usize)
+    ensures
+        mc_fv_inner(g, p, m0, ks, i, u, vs, j) && j < vs.len() && vs[j] == v
+            && ((mc_fv_says(p, v, false) && m2 == m0) || (mc_fv_says(p, v, true) && mc_arc_added(m0, m2, u, v)))
+            ==> mc_fv_inner(g, p, m2, ks, i, u, vs, j + 1),
+{
+    if mc_fv_inner(g, p, m0, ks, i, u, vs, j) && j < vs.len() && vs[j] == v
+        && ((mc_fv_says(p, v, false) && m2 == m0) || (mc_fv_says(p, v, true) && mc_arc_added(m0, m2, u, v))) {
+        assert(ks.to_set().contains(ks[i]));
+        assert(g.has(u as int, vs[j] as int));
+        if m2 != m0 {
+            let m1 = choose|m1: McMap| mc_added(m0, m1, u, v) && #[trigger] mc_touched(m1, m2, v);
+            lemma_mc_fv_add(g, p, m0, m1, m2, u, v);
+            lemma_mc_grows_done(g, p, m0, m2, ks, i);
+            assert forall|jj: int| 0 <= jj < j + 1 implies m2[u]@.contains(#[trigger] vs[jj]) || mc_fv_says(p, vs[jj], false) by {
+                if jj < j { assert(m0[u]@.subset_of(m2[u]@)); }
+            }
+        }
+    }
+}
+
+/// end of one round of the outer loop: u = ks[i] was rejected and nothing changed, or the inner loop ran to its end
+proof fn lemma_mc_fv_outer_step<P: Fn(usize) -> bool>(g: AdjacencyMap, p: P, m0: McMap, m2: McMap, ks: Seq<usize>, i: int, u: usize)
+    ensures
+        mc_fv_outer(g, p, m0, ks, i) && i < ks.len() && ks[i] == u
+            && ((mc_fv_says(p, u, false) && m2 == m0) || (exists|vs: Seq<usize>| #[trigger] mc_fv_inner(g, p, m2, ks, i, u, vs, vs.len() as int)))
+            ==> mc_fv_outer(g, p, m2, ks, i + 1),
+{
+    if mc_fv_outer(g, p, m0, ks, i) && i < ks.len() && ks[i] == u
+        && ((mc_fv_says(p, u, false) && m2 == m0) || (exists|vs: Seq<usize>| #[trigger] mc_fv_inner(g, p, m2, ks, i, u, vs, vs.len() as int))) {
+        assert(ks.to_set().contains(ks[i]));
+        if exists|vs: Seq<usize>| #[trigger] mc_fv_inner(g, p, m2, ks, i, u, vs, vs.len() as int) {
+            let vs = choose|vs: Seq<usize>| #[trigger] mc_fv_inner(g, p, m2, ks, i, u, vs, vs.len() as int);
+            lemma_mc_fv_vertex_done(g, p, m2, u, vs);
+        }
+        assert(mc_fv_done(g, p, m2, u));
+        assert forall|k: int| 0 <= k < i + 1 implies mc_fv_done(g, p, m2, #[trigger] ks[k]) by {}
+    }
+}
+
+/// what filter_vertices promises (C11): a valid digraph, the subdigraph induced by the accepted vertices
+spec fn mc_fv_result<P: Fn(usize) -> bool>(g: AdjacencyMap, p: P, r: AdjacencyMap) -> bool {
+    &&& r.wf()
+    &&& forall|x: int| #[trigger] r.verts().contains(x) ==> g.verts().contains(x) && mc_fv_yes(p, x)
+    &&& forall|x: int| #![trigger r.verts().contains(x)] g.verts().contains(x) && !r.verts().contains(x) ==> mc_fv_no(p, x)
+    &&& forall|u: int, v: int| #[trigger] r.has(u, v) ==> g.has(u, v) && mc_fv_yes(p, u) && mc_fv_yes(p, v)
+    &&& forall|u: int, v: int| #![trigger r.has(u, v)] g.has(u, v) && !r.has(u, v) ==> mc_fv_no(p, u) || mc_fv_no(p, v)
+}
+
+/// ... which, the predicate being a function of its argument, is EXACTLY the induced subdigraph
+spec fn mc_fv_induced<P: Fn(usize) -> bool>(g: AdjacencyMap, p: P, r: AdjacencyMap) -> bool {
+    &&& forall|x: int| #[trigger] r.verts().contains(x) == (g.verts().contains(x) && mc_fv_yes(p, x))
+    &&& forall|u: int, v: int| #[trigger] r.has(u, v) == (g.has(u, v) && mc_fv_yes(p, u) && mc_fv_yes(p, v))
+}
+
+/// the outer loop ran to its end and the map is not empty: the promised result
+spec fn mc_fv_result_ok<P: Fn(usize) -> bool>(g: AdjacencyMap, p: P, r: AdjacencyMap, ks: Seq<usize>) -> bool {
+    mc_fv_det(p) && mc_fv_outer(g, p, r.arcs@, ks, ks.len() as int) && r.arcs@.len() > 0
+        ==> mc_fv_result(g, p, r) && mc_fv_induced(g, p, r)
+}
+proof fn lemma_mc_fv_result<P: Fn(usize) -> bool>(g: AdjacencyMap, p: P, r: AdjacencyMap, ks: Seq<usize>)
+    ensures mc_fv_result_ok(g, p, r, ks),
+{
+    if mc_fv_det(p) && mc_fv_outer(g, p, r.arcs@, ks, ks.len() as int) && r.arcs@.len() > 0 {
+        broadcast use lemma_map_verts_contains;
+        let m = r.arcs@;
+        assert forall|a: usize| g.arcs@.contains_key(a) implies mc_fv_done(g, p, m, a) by {
+            assert(ks.to_set().contains(a));
+            let k = choose|k: int| 0 <= k < ks.len() && ks[k] == a;
+            assert(mc_fv_done(g, p, m, ks[k]));
+        }
+        assert forall|u: usize, x: usize| m.contains_key(u) && #[trigger] m[u]@.contains(x) implies m.contains_key(x) && x != u by {
+            assert(g.arcs@[u]@.contains(x));
+        }
+        assert forall|x: int| #![trigger r.verts().contains(x)] g.verts().contains(x) && !r.verts().contains(x) implies mc_fv_no(p, x) by {
+            assert(mc_fv_done(g, p, m, x as usize));
+        }
+        assert forall|u: int, v: int| #[trigger] r.has(u, v) implies g.has(u, v) && mc_fv_yes(p, u) && mc_fv_yes(p, v) by {
+            assert(m[u as usize]@.contains(v as usize));
+        }
+        assert forall|u: int, v: int| #![trigger r.has(u, v)] g.has(u, v) && !r.has(u, v) implies mc_fv_no(p, u) || mc_fv_no(p, v) by {
+            assert(mc_fv_done(g, p, m, u as usize));
+            assert(g.arcs@[u as usize]@.contains(v as usize));
+        }
+        assert forall|x: int| #[trigger] r.verts().contains(x) == (g.verts().contains(x) && mc_fv_yes(p, x)) by {
+            if g.verts().contains(x) && mc_fv_yes(p, x) && !r.verts().contains(x) {
+                assert(mc_fv_no(p, x));
+                assert(mc_fv_says(p, x as usize, true) && mc_fv_says(p, x as usize, false));
+            }
+        }
+        assert forall|u: int, v: int| #[trigger] r.has(u, v) == (g.has(u, v) && mc_fv_yes(p, u) && mc_fv_yes(p, v)) by {
+            if g.has(u, v) && mc_fv_yes(p, u) && mc_fv_yes(p, v) && !r.has(u, v) {
+                assert(mc_fv_no(p, u) || mc_fv_no(p, v));
+                assert(mc_fv_says(p, u as usize, true) && mc_fv_says(p, v as usize, true));
+            }
+        }
+    }
+}
+
+impl AdjacencyMap {
+    // C11: the result is the subdigraph induced by the vertices satisfying the predicate, a valid digraph (the panic on an
+    // empty selection is an allowed outcome: "returned normally ==> at least one vertex" is part of `r.wf()`); `self` is
+    // borrowed immutably.  The predicate must be callable on every id and be a function of its argument.
+    // The hints are calls of unconditional lemmas only (no assertion that could fail in place of a contract clause).
+    /*@fn impl=AdjacencyMap trait=FilterVertices name=filter_vertices props=C11,C13
+    requires
+        self.wf(),
+        mc_fv_callable(predicate),
+        mc_fv_det(predicate),
+    ensures
+        mc_fv_result(*self, predicate, r),
+        mc_fv_induced(*self, predicate, r),
+    @loop 1
+    invariant
+        it1.iter.obeys_prophetic_iter_laws(),
+        it1.iter.decrease() is Some,
+        mc_fv_callable(predicate),
+        mc_fv_outer(*self, predicate, arcs@, it1.seq(), it1.index() as int),
+    @loop_start 1
+        let ghost m_in = arcs@;
+    @before `for v in self.out_neighbors(u)`
+        proof {
+            // the inner loop's iterator does not exist yet: for every out-neighbour listing
+            assert forall|vs: Seq<usize>| #![trigger mc_nb_seq(*self, u, vs)] mc_fv_enter_ok(*self, predicate, m_in, arcs@, it1.seq(), it1.index() as int, u, vs)
+            by { lemma_mc_fv_enter(*self, predicate, m_in, arcs@, it1.seq(), it1.index() as int, u, vs); }
+        }
+    @loop 2
+    invariant
+        it2.iter.obeys_prophetic_iter_laws(),
+        it2.iter.decrease() is Some,
+        mc_fv_callable(predicate),
+        mc_fv_inner(*self, predicate, arcs@, it1.seq(), it1.index() as int, u, it2.seq(), it2.index() as int),
+    @loop_start 2
+        let ghost m0 = arcs@;
+    @loop_end 2
+        proof { lemma_mc_fv_inner_step(*self, predicate, m0, arcs@, it1.seq(), it1.index() as int, u, it2.seq(), it2.index() as int, v); }
+    @loop_end 1
+        proof { lemma_mc_fv_outer_step(*self, predicate, m_in, arcs@, it1.seq(), it1.index() as int, u); }
+    @fn_end
+        proof {
+            // the loop's ghost iterator is out of scope here: state the conclusion for every vertex listing
+            assert forall|ks: Seq<usize>| #![trigger mc_is_key_seq(self.arcs@.dom(), ks)] mc_fv_result_ok(*self, predicate, AdjacencyMap { arcs }, ks)
+            by { lemma_mc_fv_result(*self, predicate, AdjacencyMap { arcs }, ks); }
+        }
     @*/
 }
